@@ -290,7 +290,7 @@ Proof.
               (fun x Hx => Inv_Step _ _ (Step_step_allocate o x) Hx)
               (fun x Hx => Inv_Step _ _ (Step_step_perform o x) Hx)
               (fun x Hx => Inv_Step _ _ (Step_step_record o x) Hx)
-              (fun x n Hx => Inv_Step _ _ (Step_with_time x n) Hx)
+              (fun x Hx => Inv_Step _ _ (Step_with_time x (S (time x))) Hx)
               _ _ _ Htr H0) as [Hall (su & Hsu & x & Ex)].
   split.
   - eapply Forall_impl; [|exact Hall]. intros [[k ph] sn]. cbn. destruct ph; exact (fun h => h).
@@ -348,7 +348,7 @@ Proof.
               (fun x Hx => ExemptFin_Step _ _ (Step_step_allocate o x) Hx)
               (fun x Hx => ExemptFin_Step _ _ (Step_step_perform o x) Hx)
               (fun x Hx => ExemptFin_Step _ _ (Step_step_record o x) Hx)
-              (fun x n Hx => ExemptFin_Step _ _ (Step_with_time x n) Hx)
+              (fun x Hx => ExemptFin_Step _ _ (Step_with_time x (S (time x))) Hx)
               _ _ _ Htr (ExemptFin_initialize o s Hs Hl)) as [Hall _].
   eapply Forall_impl; [|exact Hall]. intros [[k ph] sn]. cbn. destruct ph; exact (fun h => h).
 Qed.
